@@ -23,6 +23,16 @@ WritesOK(stream, log) ==
      /\ \A i \in ws : i > 1 /\ log[i - 1] = "ev:Finished"
      \* ... and it is the FIRST run-Finished it follows
      /\ \A i \in ws : \A j \in 1..(i - 2) : log[j] # "ev:Finished"
+\* the numbers printed in the summary text are the counters (omitted parts are zeros)
+TextOK(t, a) ==
+  ~t.present \/
+  /\ t.features = a.features /\ t.rules = a.rules
+  /\ t.sc_passed = a.sc_passed /\ t.sc_skipped = a.sc_skipped /\ t.sc_failed = a.sc_failed
+  /\ t.sc_retried = a.sc_retried /\ t.sc_total = a.sc_passed + a.sc_skipped + a.sc_failed
+  /\ t.st_passed = a.passed_steps /\ t.st_skipped = a.skipped_steps /\ t.st_failed = a.failed_steps
+  /\ t.st_retried = a.retried_steps /\ t.st_total = a.passed_steps + a.skipped_steps + a.failed_steps
+  /\ t.parsing_errors = a.parsing_errors /\ t.hook_errors = a.hook_errors
+
 Verdict(r) ==
   LET d == DeclRun(DeclInit, r.stream)
       a == r.actual
@@ -38,6 +48,7 @@ Verdict(r) ==
                    ELSE {<<"C12", IF shape = "" THEN "scenario-counters-differ-from-last-attempts"
                                   ELSE "scenario-counted-wrongly-known-shape", shape>>})
              \cup (IF WritesOK(r.stream, r.log) THEN {} ELSE {<<"C12", "summary-not-written-exactly-once-right-after-Finished", shape>>})
+             \cup (IF TextOK(r.text, a) THEN {} ELSE {<<"C12", "summary-text-states-other-numbers-than-the-counters", "">>})
       \* behind FailOnSkipped the statistics writer sees the rewritten stream
       sFos == FoS(r.stream, ShouldFailDefault)
       dFos == DeclRun(DeclInit, sFos)
@@ -50,6 +61,8 @@ Verdict(r) ==
       c01 == {<<"C01", IF IsF1(v) THEN "run-failed-only-by-hook-failure-of-a-retried-attempt"
                        ELSE "verdict-differs-from-final-failure", v.pipeline>>
                : v \in {x \in Range(r.verdicts) : x.failed # Exp(x)}}
+             \cup {<<"C01", "run_and_exit-does-not-follow-the-statistics-verdict", v.pipeline>>
+                     : v \in {x \in Range(r.verdicts) : x.writer_panic = "" /\ x.exit_failed # x.failed}}
   IN c12 \cup c01
 
 Next ==
